@@ -192,6 +192,7 @@ type Engine struct {
 	// ElemKeys: the value variable of `range X` is known as key(X)+"[*]".
 	ElemKeys bool
 
+	labels   map[ast.Stmt]string // statement -> its label
 	paths    []*Path
 	err      error
 	modCache map[*types.Func]map[*types.Var]bool
@@ -212,12 +213,13 @@ type env struct {
 	instN   int
 	fresh   int
 	fbind   map[string]string // field lvalue key (with version) -> key of the value stored
+	label   string            // label of a labelled break/continue on its way to its statement
 }
 
 func (v *env) clone() *env {
 	n := &env{bind: make(map[types.Object]string, len(v.bind)), boolv: make(map[types.Object]*bool, len(v.boolv)),
 		version: make(map[*types.Var]int, len(v.version)), atoms: make(map[string]bool, len(v.atoms)),
-		seen: make(map[string]int, len(v.seen)), fresh: v.fresh, inst: make(map[*ast.CallExpr]int, len(v.inst)), instN: v.instN}
+		seen: make(map[string]int, len(v.seen)), fresh: v.fresh, inst: make(map[*ast.CallExpr]int, len(v.inst)), instN: v.instN, label: v.label}
 	for k, x := range v.inst {
 		n.inst[k] = x
 	}
@@ -405,6 +407,9 @@ func (e *Engine) execStmt(v *env, s ast.Stmt, k cont) {
 		if s.Label != nil && s.Tok != token.CONTINUE && s.Tok != token.BREAK {
 			panic(undecidedErr{s.Pos(), "goto/labelled branch"})
 		}
+		if s.Label != nil {
+			v.label = s.Label.Name
+		}
 		switch s.Tok {
 		case token.BREAK:
 			k(v, ctlBreak)
@@ -436,6 +441,10 @@ func (e *Engine) execStmt(v *env, s ast.Stmt, k cont) {
 			k(v, ctlNext)
 		})
 	case *ast.LabeledStmt:
+		if e.labels == nil {
+			e.labels = map[ast.Stmt]string{}
+		}
+		e.labels[s.Stmt] = s.Label.Name
 		e.execStmt(v, s.Stmt, k)
 	case *ast.SelectStmt:
 		e.selectStmt(v, s, k)
@@ -678,6 +687,10 @@ func (e *Engine) switchStmt(v *env, s *ast.SwitchStmt, k cont) {
 		e.execBlock(v, cc.Body, func(v *env, c ctl) {
 			switch c {
 			case ctlBreak:
+				if e.foreign(v, s) {
+					k(v, c) // labelled for an outer statement
+					return
+				}
 				k(v, ctlNext)
 			case ctlFallthrough:
 				for i, x := range all {
@@ -738,7 +751,7 @@ func (e *Engine) typeSwitch(v *env, s *ast.TypeSwitchStmt, k cont) {
 	}
 	xk := e.key(v, x)
 	after := func(v *env, c ctl) {
-		if c == ctlBreak {
+		if c == ctlBreak && !e.foreign(v, s) {
 			c = ctlNext
 		}
 		k(v, c)
@@ -791,7 +804,7 @@ func (e *Engine) typeSwitch(v *env, s *ast.TypeSwitchStmt, k cont) {
 
 func (e *Engine) selectStmt(v *env, s *ast.SelectStmt, k cont) {
 	after := func(v *env, c ctl) {
-		if c == ctlBreak {
+		if c == ctlBreak && !e.foreign(v, s) {
 			c = ctlNext
 		}
 		k(v, c)
@@ -898,6 +911,19 @@ func (e *Engine) havocLoc(v *env, l ast.Expr) {
 	}
 }
 
+// foreign reports whether a break/continue that reached statement s is labelled for another (outer) statement; when it is
+// meant for s itself the pending label is cleared.
+func (e *Engine) foreign(v *env, s ast.Stmt) bool {
+	if v.label == "" {
+		return false
+	}
+	if e.labels[s] == v.label {
+		v.label = ""
+		return false
+	}
+	return true
+}
+
 // forLoop: a three-clause loop whose condition or post statement carries
 // tracked effects is modelled as "condition false: skip | condition true: body,
 // post, leave"; otherwise as loop().
@@ -918,11 +944,18 @@ func (e *Engine) forLoop(v *env, s *ast.ForStmt, k cont) {
 			case ctlReturn, ctlPanic:
 				k(v, c)
 				return
-			case ctlBreak:
-				v.events = append(v.events, Event{Kind: "break", Name: "for", Pos: s.Pos(), Node: s})
-				v.events = append(v.events, Event{Kind: "endloop", Name: "for", Pos: s.End(), Node: s})
-				k(v, ctlNext)
-				return
+			case ctlBreak, ctlContinue:
+				if e.foreign(v, s) {
+					v.events = append(v.events, Event{Kind: "endloop", Name: "for", Pos: s.End(), Node: s})
+					k(v, c)
+					return
+				}
+				if c == ctlBreak {
+					v.events = append(v.events, Event{Kind: "break", Name: "for", Pos: s.Pos(), Node: s})
+					v.events = append(v.events, Event{Kind: "endloop", Name: "for", Pos: s.End(), Node: s})
+					k(v, ctlNext)
+					return
+				}
 			}
 			e.execStmt(v, s.Post, func(v *env, c ctl) {
 				v.events = append(v.events, Event{Kind: "endloop", Name: "for", Pos: s.End(), Node: s})
@@ -962,13 +995,20 @@ func (e *Engine) loop(v *env, s ast.Stmt, body *ast.BlockStmt, rs *ast.RangeStmt
 		case ctlReturn, ctlPanic:
 			k(v, c)
 			return
-		case ctlBreak:
-			// the iteration that breaks is the last one: what it assigned is what the code after the loop sees
-			v.events = append(v.events, Event{Kind: "break", Name: name, Pos: s.Pos(), Node: s})
-			v.events = append(v.events, Event{Kind: "endloop", Name: name, Pos: s.End(), Node: s})
-			k(v, ctlNext)
-			return
-		case ctlContinue:
+		case ctlBreak, ctlContinue:
+			if e.foreign(v, s) {
+				// labelled for an outer statement: this loop is left, the branch travels on
+				v.events = append(v.events, Event{Kind: "endloop", Name: name, Pos: s.End(), Node: s})
+				k(v, c)
+				return
+			}
+			if c == ctlBreak {
+				// the iteration that breaks is the last one: what it assigned is what the code after the loop sees
+				v.events = append(v.events, Event{Kind: "break", Name: name, Pos: s.Pos(), Node: s})
+				v.events = append(v.events, Event{Kind: "endloop", Name: name, Pos: s.End(), Node: s})
+				k(v, ctlNext)
+				return
+			}
 			v.events = append(v.events, Event{Kind: "continue", Name: name, Pos: s.Pos(), Node: s})
 		}
 		v.events = append(v.events, Event{Kind: "endloop", Name: name, Pos: s.End(), Node: s})
